@@ -1,6 +1,8 @@
 import CoapVerif.Go.Basic
 import CoapVerif.Model.Framing
 import CoapVerif.Lemmas.Framing
+import CoapVerif.Spec.Framing
+import CoapVerif.Lemmas.FramingSpec
 /-!
 # C07 — Stream framing is independent of how bytes are segmented
 
@@ -137,6 +139,24 @@ theorem oversize_closes (max : Nat) (fs : List Bytes) (hdr rest : Bytes) (cs : L
 theorem short_waits (max : Nat) (buf : Bytes) (out : List Msg) (h : decodeHeader buf = .short) :
     proc max buf out = ⟨buf, out, false⟩ := proc_short h
 
+/-- **The code-following model meets the RFC-level specification** (`Spec/Framing.lean`, written from RFC 8323 §3.2 /
+    RFC 7252 §3.1 without reference to the code, and the judge of the correspondence runs): for every byte stream, every
+    segmentation and every limit, the messages delivered are exactly the frames the specification finds in the
+    stream before the first offending one, the connection is open whenever the specification says it is open
+    (in particular nothing is closed without an offending frame), and it is closed whenever the specification
+    says the offending header / malformed frame is completely received (`mustClose`; for an oversize length
+    field whose header is still incomplete the specification allows either). -/
+theorem run_meets_spec (max : Nat) (cs : List Bytes) :
+    (run max cs).out = (Spec.Framing.expected max cs.flatten).1.map Lemmas.FramingSpec.conv ∧
+    ((Spec.Framing.expected max cs.flatten).2 = .open_ → (run max cs).closed = false) ∧
+    ((Spec.Framing.expected max cs.flatten).2 = .mustClose → (run max cs).closed = true) := by
+  have hobs := run_chunk_independent max cs
+  have e2 : run max [cs.flatten] = proc max cs.flatten [] := by simp [run, feed, init]
+  rw [e2] at hobs
+  simp only [St.obs, Prod.mk.injEq] at hobs
+  rw [hobs.1, hobs.2]
+  exact Lemmas.FramingSpec.proc_eq_split max cs.flatten [] [] (cs.flatten.length + 1) rfl (by omega)
+
 /-! Non-vacuity: a GET with token `a1` and Uri-Path "x" (frame `21 01 a1 b1 78`), a CSM `00 e1`,
     cut inside the header, against limit 1152; and an oversize header `e0 ff ff 01` (declares 65804+4 bytes). -/
 theorem ex_frame : decodeFrame [0x21, 0x01, 0xa1, 0xb1, 0x78] = some ⟨1, [0xa1], []⟩ := by
@@ -166,5 +186,6 @@ open CoapVerif.Props.C07
 #print axioms run_delivers_sent
 #print axioms oversize_closes
 #print axioms short_waits
+#print axioms run_meets_spec
 #print axioms ex_frame
 end Audit
